@@ -708,7 +708,19 @@ func checkSlotGates(c *Ctx, r *Rec, info *types.Info, lst *types.Named) {
 								viol = append(viol, fmt.Sprintf("on {%s} the method proceeds to rebuild the list, but %s", all, row.Desc))
 							}
 							if row.Kind == "nopanic" && pth.Kind == "panic" {
-								viol = append(viol, fmt.Sprintf("on {%s} the method panics, but %s", all, row.Desc))
+								// a panic behind a nil check of a value the method has just made is an
+								// assertion, not a refusal of the argument
+								nilCheck := false
+								for _, atom := range pth.Cube {
+									for sname := range atom.C {
+										if strings.HasPrefix(sname, "pred:") && strings.HasSuffix(sname, "== nil") {
+											nilCheck = true
+										}
+									}
+								}
+								if !nilCheck {
+									viol = append(viol, fmt.Sprintf("on {%s} the method panics, but %s", all, row.Desc))
+								}
 							}
 						} else if !dec {
 							viol = append(viol, "undecidable region "+all.String())
